@@ -15,7 +15,7 @@ from ..meshops_tie import PROP_MOD_C20 as MESHOPS_PROP_MOD, TRUSTED as MESHOPS_T
 
 from ..estimgen_tie import PROP_MOD as ESTIMGEN_PROP_MOD, TRUSTED as ESTIMGEN_TRUSTED, prelude_requests, translate_estimgen  # noqa: E402
 
-PROP_MODS = ['Stbem.Props.C20', MESHOPS_PROP_MOD, ESTIMGEN_PROP_MOD]
+PROP_MODS = ['Stbem.Props.C20', 'Stbem.Props.C20Solve', MESHOPS_PROP_MOD, ESTIMGEN_PROP_MOD]
 RULE = ('correspondence: the REAL HierarchicalErrorEstimator.estimate / HH2ErrorEstimator.estimate / '
         'DummyElement.uniform_refinement / Prolongate run in-process on exact data and are compared textually with the '
         'Lean model: (1) children rectangles of uniform_refinement on leaves of random real meshes (Fraction '
@@ -43,7 +43,9 @@ TRUSTED = [
     'translator translate/consts.py (ast of the two estimator sources -> Gen/Consts.lean: child boxes in source order, '
     'sign patterns, combination, repeat factor); unsupported source shapes raise',
     'hand-written model lean/Stbem/Model/Estim.lean, tied by this correspondence; `solve` of the model is '
-    'self-checking (returns y only if A y = b), its completeness for regular A is tested, not proved',
+    'self-checking (returns y only if A y = b) and proved complete: for every square matrix that is injective on '
+    'vectors / has non-zero determinant it returns the unique solution, `none` only for singular matrices '
+    '(solve_complete, solve_none_singular; Props/C20Solve.lean: solve_complete_det, regular_iff_det)',
     'harness: harness/estimlib.py (np stand-in, exact solver, synthetic operators), Driver/EstimCmd.lean parser',
     'Python semantics: Fraction exact; NumPy object arrays apply Python operators element-wise; np.repeat order; '
     'dict keyed by object identity for DummyElement',
